@@ -846,6 +846,12 @@ def _format_value(value: Any) -> str:
     s = _encode_non_ascii(s)
 
     if (quotes := _quotes_for_string_value(s)) == ';':
+        if '\n;' in s:
+            # A line starting with ';' would terminate the text field early.
+            raise ValueError(
+                "Cannot encode string in CIF 1.1: it contains a line that starts "
+                f"with ';': {s!r}"
+            )
         return f'; {s}\n;'
     elif quotes is not None:
         return quotes + s + quotes
